@@ -552,7 +552,13 @@ class ParserField:
         return represent(value)
 
     def setup(self, options: Options):
-        if self.is_case_insensitive(options):
+        # decided here, by the options of the class that declares the field (the accepted keys are lower-cased below,
+        # or not): a subclass takes the field over as it is, whatever its own Options(case_insensitive=...) say
+        if self.case_insensitive is not None:
+            self.setup_case_insensitive = bool(self.case_insensitive)
+        else:
+            self.setup_case_insensitive = bool(options.case_insensitive)
+        if self.setup_case_insensitive:
             # do not lower name
             # self.name = self.name.lower()
             self.aliases = {a.lower() for a in self.aliases}
@@ -750,7 +756,11 @@ class ParserField:
         # required is mode str or callable does not means
         return self.required is True or not self.no_default
 
+    setup_case_insensitive = None
+
     def is_case_insensitive(self, options: Options) -> bool:
+        if self.setup_case_insensitive is not None:
+            return self.setup_case_insensitive
         if self.case_insensitive is not None:
             return bool(self.case_insensitive)
         return bool(options.case_insensitive)
